@@ -8,7 +8,8 @@ from ..runner import Scn, verdict, sha, Vacuous
 ID = 'C16'
 LEVEL = 'model_checking'
 RULE = ('E1 enumeration (complete product): flag in {none, *, +} on a plane and on a sphere that bound converted '
-        'cells, on a plane used only by an importance-0 cell and on an unused plane; an identical unflagged '
+        'cells, on a plane used only by an importance-0 cell, on an unused plane and on a plane of a universe '
+        'that fills several containers; an identical flagged twin; an identical unflagged '
         'copy of the flagged plane with a lower / higher / both numbers; a flagged macrobody; with and without '
         '--skip-deduplication; oracle: BOUNDARY_CONDITION block has exactly one ALL_COMPLETE REFLECTION|COSINUS '
         'entry per flagged surface bounding a converted cell, its id is a SURF of the file with the flagged '
@@ -27,7 +28,7 @@ def build(ch):
     f50 = ch.choose('flag50', ['', '*', '+'], free=True)
     f60 = ch.choose('flag60', ['', '*'])
     f70 = ch.choose('flag70', ['', '+'])
-    copy = ch.choose('copy', ['none', 'lower', 'higher', 'both', 'macro-lower'], free=True)
+    copy = ch.choose('copy', ['none', 'lower', 'higher', 'both', 'macro-lower', 'flagged-twin'], free=True)
     macro_twin = ch.choose('macro-twin', [False, True])
     copy_used = ch.choose('copy-used', [False, True]) if copy != 'none' else False
     f55 = ch.choose('flag55', ['', '*', '+'])
@@ -68,7 +69,16 @@ def build(ch):
         st.surfs.append('15 px 3')
     if copy in ('higher', 'both'):
         st.surfs.append('25 px 3')
-    if copy_used and copy == 'macro-lower':
+    st.twin = False
+    if copy == 'flagged-twin':
+        # a second card for the same plane carrying the same flag, used by a converted cell: the two flagged
+        # surfaces are one surface of the written geometry (unless de-duplication is skipped)
+        st.surfs.append('%s25 px 3' % f20)
+        st.cells[1] = '2 0 -50 (-10:25:-30:40) 55 imp:n=1'
+        st.twin = True
+    if copy_used and copy == 'flagged-twin':
+        pass
+    elif copy_used and copy == 'macro-lower':
         st.cells[1] = '2 0 -50 (-10:15.1:-30:40) 55 imp:n=1'
     elif copy_used:
         c = 15 if copy in ('lower', 'both') else 25
@@ -82,14 +92,49 @@ def build(ch):
     return st
 
 
-REF = {20: refsem.mcnp_surface('px', [3.0]), 50: refsem.mcnp_surface('so', [8.0]),
+def build_universe(ch):
+    """a flagged plane inside a universe that fills two containers; the second FILL transformation leaves the
+    plane where it is, so both copies are one surface of the written geometry"""
+    st = Deck('c16 flagged surface inside a universe')
+    f21 = ch.choose('flag21', ['*', '+', ''], free=True)
+    f50 = ch.choose('flag50', ['', '*', '+'], free=True)
+    tr2 = ch.choose('filltr2', ['(0 6 0)', '(0 6 0 1 0 0 0 -1 0 0 0 -1)', '(0 6 2)', '*(0 6 0 0 90 90 90 180 90 90 90 180)'],
+                    free=True)
+    third = ch.choose('third-container', [False, True], free=True)
+    skip = ch.choose('skip-dedup', [False, True], free=True)
+    star = '*' if tr2.startswith('*') else ''
+    st.cells = ['1 0 10 -20 30 -40 fill=1 imp:n=1',
+                '2 0 10 -20 40 -45 %sfill=1 %s imp:n=1' % (star, tr2.lstrip('*')),
+                '3 0 -50 (-10:20:-30:%d) imp:n=1' % (46 if third else 45),
+                '4 0 50 imp:n=0',
+                '11 1 -2.7 -21 u=1 imp:n=1',
+                '12 0 21 u=1 imp:n=1']
+    if third:
+        st.cells.insert(2, '5 0 10 -20 45 -46 fill=1 (0 12 0) imp:n=1')
+    st.surfs = ['10 px -3', '20 px 3', '30 py -3', '40 py 3', '45 py 9', '46 py 15', '%s50 so 40' % f50,
+                '%s21 px 0.5' % f21]
+    st.data = ['m1 13027 1']
+    st.flags = {21: f21, 50: f50}
+    st.unused_flags = {}
+    st.macro = ''
+    st.twin = False
+    st.ref50 = refsem.mcnp_surface('so', [40.0])
+    st.copies = {21: 3 if third else 2}
+    st.options = ['--skip-deduplication'] if skip else []
+    return st
+
+
+REF = {21: refsem.mcnp_surface('px', [0.5]), 20: refsem.mcnp_surface('px', [3.0]), 50: refsem.mcnp_surface('so', [8.0]),
        55: refsem.mcnp_surface('k/z', [0.0, 6.0, -1.0, 0.25])}
 
 
 def scenarios(tier):
     return [Scn('flags', build, 2 if tier == 'quick' else 3, 3,
                 'flags on the two bounding surfaces x copies x kinds x de-duplication: complete product; the other '
-                'choices (further flagged surfaces, TR, macrobodies) deviation-bounded')]
+                'choices (further flagged surfaces, TR, macrobodies) deviation-bounded'),
+            Scn('universe', build_universe, None, None,
+                'flagged plane inside a universe filled into two or three containers by transformations that leave '
+                'the plane in place: complete product')]
 
 
 def check_state(scn, st, corrupt=False):
@@ -127,7 +172,13 @@ def check_state(scn, st, corrupt=False):
             if geomdecide.identify(f, g, max(deg, gdeg)) is not None:
                 hits.append(i)
         good = [i for i in hits if entries[i][0] == KIND[fl]]
-        if len(hits) != 1 or len(good) != 1:
+        nmax = 2 if (s == 20 and getattr(st, 'twin', False) and st.options) else 1
+        if st.options:
+            # without de-duplication every copy of a universe surface (one per filled cell of the universe
+            # and container) is a surface of its own: distinct ids, right locus and kind, at least one
+            nmax = 99 if s in getattr(st, 'copies', {}) else nmax
+        ids = [entries[i][1] for i in hits]
+        if not 1 <= len(hits) <= nmax or len(good) != len(hits) or len(set(ids)) != len(ids):
             bad.append('flagged surface %s%d: %d entries on its locus, %d of kind %s'
                        % (fl, s, len(hits), len(good), KIND[fl]))
         for i in hits:
